@@ -394,6 +394,45 @@ pub fn live_workload_blocks() -> i64 {
 pub fn live_lib_blocks() -> i64 {
     LIVE[2].load(Relaxed)
 }
+/// After a run has been torn down nothing of it can still be in use: release every block that was
+/// requested outside the Infra context (leaked element payloads, blocks leaked by the library under
+/// a property that does not forbid it), so that leaks of one run neither accumulate in the table nor
+/// are charged to a later run. Returns how many blocks were swept.
+pub fn sweep_workload_blocks() -> u64 {
+    if LIVE[1].load(Relaxed) + LIVE[2].load(Relaxed) + LIVE[3].load(Relaxed) <= 0 {
+        return 0;
+    }
+    let mut swept = 0u64;
+    loop {
+        // collect a batch under the lock, free outside it
+        let mut batch = [(0usize, 0usize, 0u32, 0u8); 64];
+        let mut n = 0;
+        {
+            let mut l = Locked::new();
+            for en in l.tab().iter() {
+                if en.addr != 0 && en.ctx != 0 && n < batch.len() {
+                    batch[n] = (en.addr, en.size, en.align, en.ctx);
+                    n += 1;
+                }
+            }
+            for b in &batch[..n] {
+                if let Some(i) = l.find(b.0) {
+                    l.remove(i);
+                    LIVE[b.3 as usize].fetch_sub(1, Relaxed);
+                }
+            }
+        }
+        if n == 0 {
+            break;
+        }
+        for b in &batch[..n] {
+            unsafe { System.dealloc(b.0 as *mut u8, Layout::from_size_align_unchecked(b.1, b.2 as usize)) };
+            swept += 1;
+        }
+    }
+    swept
+}
+
 /// sizes of up to `max` live Work/Lib blocks (for messages only)
 pub fn live_workload_sizes(max: usize) -> Vec<(usize, u32, u8)> {
     let mut out = Vec::new();
